@@ -56,7 +56,7 @@ def report(ctx, part, v, cases, kf):
                       {"part": part, "case": k, "trace": cases.get(k), "first_unmatched": r[2] if r else None,
                        "kf_switches": kf, "module": part + "Trace.tla",
                        "consts": ({"KF_C20_EmptyVolume": kf["KF_C20_EmptyVolume"]} if part == "SeekChain"
-                                  else {"KF_C20_ReportedPreexisting": kf["KF_C20_ReportedPreexisting"]}), "how": "bin/check C20 quick --replay <this file>"})
+                                  else {"KF_C20_ReportedPreexisting": kf["KF_C20_ReportedPreexisting"]} if part == "Extract" else None), "how": "bin/check C20 quick --replay <this file>"})
     for k, labels in v.known.items():
         if k not in v.violations:
             for lab in labels:
@@ -283,14 +283,56 @@ def check(ctx):
     xcases = c.split_cases(xtrace)
     x_ok = report(ctx, "Extract", xv, xcases, kf)
 
+    # ------------------------------------------------------------------ part 3: volume discovery next to look-alike neighbours
+    # a real multi-volume archive trace.zip.001.. next to a neighbour whose name is prefix-/suffix-/case-related (trace.zip.old.zip.001,
+    # trace2.zip.001, xtrace.zip.001, Trace.zip.001, trace.ZIP.001, trace.7z.001, trace.zip.0010, numbering gaps): the volume list must
+    # be exactly the opened archive's own volumes, and extract_archives must yield exactly its own members
+    vres = c.tlc_must_pass(ctx, "volumes-enum", "mc/MCExtractVolumes.tla", "ExtractVolumes_quick.cfg" if quick else "ExtractVolumes_thorough.cfg", timeout=3000)
+    vscns = c.scn_lines(vres)
+    if not vscns:
+        raise c.ToolError("ExtractVolumes emitted no scenarios")
+    vscn = ctx.path("volumes-scenarios.ndjson")
+    write_scn(vscn, vscns)
+    vtrace = ctx.path("volumes-trace.ndjson")
+    vinfo = drive(binp, ["--mode", "volumes", "--scenarios", vscn, "--seed", str(ctx.seed), "--out", vtrace, "--tmp", tmp])
+    vv = validate_chunked(ctx, "volumes", "ExtractVolumesTrace.tla", vtrace, {})
+    vcases = c.split_cases(vtrace)
+    v_ok = report(ctx, "ExtractVolumes", vv, vcases, kf)
+    ctx.extra["volumes"] = {"directories_x_opened_volume": len(vscns), "replayed": vinfo["cases"]}
+    ctx.extra["volumes_paths"] = vinfo["paths"]
+    need_v = ["opened_real_archive", "opened_neighbour", "neighbour_is_larger", "neighbour_is_smaller", "neighbour_trace.zip.old.zip_3digits"]
+    miss_v = [k for k in need_v if not vinfo["paths"].get(k)]
+    if miss_v and not ctx.violations:
+        raise c.ToolError("vacuity (volumes): %s" % miss_v)
+    # binding self-test for the discovery contract: a foreign volume in the list / a foreign member reported must be rejected
+    import copy
+    okv = [k for k in vcases if k not in vv.violations and len(vcases[k]) == 4]
+    if okv:
+        bcase = vcases[okv[0]]
+        muts = []
+        t = copy.deepcopy(bcase); other = [i + 1 for i, e in enumerate(t[0]["hdr"]["dir"]) if i + 1 not in t[1]["found"]]
+        t[1]["found"] = t[1]["found"] + other[:1]
+        muts.append(("a neighbour's volume in the volume list", t))
+        t = copy.deepcopy(bcase); t[1]["found"] = t[1]["found"][:-1]
+        muts.append(("own volume missing from the volume list", t))
+        t = copy.deepcopy(bcase); t[2]["reported"][0]["arch"] = 3 - t[2]["reported"][0]["arch"]
+        muts.append(("member of the neighbour archive reported", t))
+        muts.append(("unchanged (control: must be accepted)", copy.deepcopy(bcase)))
+        vself = _run_selftest(ctx, "volumes", "ExtractVolumesTrace.tla", muts, {})
+    elif ctx.violations:
+        vself = {"skipped": "no accepted case (run has violations)"}
+    else:
+        raise c.ToolError("binding self-test volumes: no accepted case")
+
     # binding self-test: the trace modules must reject corrupted copies of accepted traces
     ctx.extra["binding_selftest"] = binding_selftest(ctx, scases, sv, xcases, xv, kf)
+    ctx.extra["binding_selftest"]["volumes"] = vself
 
     # ------------------------------------------------------------------ evidence
-    ctx.evaluations = sinfo["replayed"] + (sinfo["cases"] - sinfo["slow_path"]) + len(xcases)
+    ctx.evaluations = sinfo["replayed"] + (sinfo["cases"] - sinfo["slow_path"]) + len(xcases) + len(vcases)
     # fast-path replays count as validated only because TLC evaluated the contract on exactly that behaviour (ok flags) and the
     # observation equalled the prediction; slow-path / random / extraction cases are validated by TLC trace validation
-    ctx.traces_validated = sinfo["fast_path"] + s_ok + x_ok
+    ctx.traces_validated = sinfo["fast_path"] + s_ok + x_ok + v_ok
     nontrivial = 0
     dseen = set()
     for s in scns:
@@ -307,7 +349,7 @@ def check(ctx):
         extracted = len(evs) > 1 and evs[-1].get("tree")
         if hostile or extracted:
             xd.add(json.dumps([h["members"], h["globs"]], sort_keys=True))
-    ctx.distinct_nontrivial = nontrivial + len(dseen) + len(xd)
+    ctx.distinct_nontrivial = nontrivial + len(dseen) + len(xd) + len(vscns)      # (every enumerated directory has a look-alike neighbour)
     ctx.rule = ("SeekChain: a case = one path of operations on one volume vector; TLC cases = every (reachable model state, operation) "
                 "pair once, non-trivial when there are >= 2 volumes; random cases distinct by (sizes, observed event list), non-trivial "
                 "with >= 2 volumes. Extract: a case = one archive written as a real zip x a history of 1..3 pattern requests "
